@@ -16,7 +16,7 @@ pub fn run(p: &Params, rep: &mut Report) {
         "identifiers containing ';' are not generated".into(),
         "orphan text selections and the alignment (OffsetMode) of offsets are compared like in C05".into(),
     ];
-    let total: u64 = if p.thorough { 8000 } else { 320 };
+    let total: u64 = if p.thorough { 8000 } else { 4000 };
     for k in p.cases(total) {
         rep.current_case = p.case_coord(k);
         rep.cases += 1;
